@@ -10,6 +10,7 @@
 
 extern void verif_point_at(int site, void* addr);
 extern void verif_sync(int site);
+extern void verif_resnap(int site);
 extern void* verif_point_ret(int site, void* addr); /* runs the point, returns addr */
 
 /* Function-style wrappers (no local declarations): CBMC type-checks the
